@@ -200,7 +200,7 @@ pub fn group_products() -> Vec<String> {
 }
 
 impl Family for Search {
-    fn search(&self, budget: &mut Budget, _seed: u64) -> Option<(Value, String)> {
+    fn search(&self, budget: &mut Budget, seed: u64) -> Option<(Value, String)> {
         let products = group_products();
         let mut pats = corpus::patterns();
         pats.extend(group_patterns());
@@ -217,6 +217,19 @@ impl Family for Search {
                     return None;
                 }
             }
+        }
+        // the rest of the budget: generated patterns
+        let mut index = 0u64;
+        while !budget.expired() {
+            for p in corpus::generated(seed, index) {
+                for t in corpus::small_texts() {
+                    budget.evals += 1;
+                    if let Some(d) = check(&p, t) {
+                        return Some((json!({"pattern": p, "text": t}), d));
+                    }
+                }
+            }
+            index += 1;
         }
         None
     }
